@@ -443,6 +443,35 @@ func (w *world) runScenario(sc *Scenario) int {
 			em.Add(id, term, js, canon(sc, si), nontrivial)
 		}
 
+		// ---- admissibility on the real code path: no stored row may stem from an inadmissible event
+		// (eon / expiry / gas limit beyond int64, invalid definition), whatever the position
+		{
+			bad := map[string]*syncrig.Ev{}
+			for _, b := range branch {
+				for li, it := range rig.ItemsOf(b) {
+					if it.Ev != nil && it.Ev.Noise == 0 && !admissible(sc, it.Ev) {
+						bad[fmt.Sprintf("%x/%d", b.Hash.Bytes(), li)] = it.Ev
+					}
+				}
+			}
+			for _, r := range postRows {
+				if e, ok := bad[fmt.Sprintf("%x/%d", r.BHash, r.Log)]; ok && assumptionOK {
+					run.Violate(vh.Violation{Key: "C15:" + sc.Syncer + ":inadmissible-event-stored", What: "an event that the admission check must discard is stored",
+						Case: truncated(sc, si), Observed: r, Expected: map[string]any{"event": e, "admissible": false}})
+					if firstViolation < 0 {
+						firstViolation = si
+					}
+				}
+			}
+			// a Sync without any injected failure has no reason to fail: the node answers every call
+			if out.Err != nil && st.RPC == nil && st.DB == nil && assumptionOK {
+				run.Violate(vh.Violation{Key: "C15:" + sc.Syncer + ":sync-fails-without-fault", What: "Sync returned an error although no RPC or database failure was injected: " + out.Err.Error(),
+					Case: truncated(sc, si)})
+				if firstViolation < 0 {
+					firstViolation = si
+				}
+			}
+		}
 		// ---- oracle
 		if !post.Present {
 			if len(postRows) != 0 && assumptionOK {
@@ -686,8 +715,9 @@ func (g *gen) addBlock(parent int, salt uint64, reuse []syncrig.Ev, density int)
 			e.TS = math.MaxUint64 // stored as int64(-1)
 		case 3:
 			e.Exp = math.MaxInt64 + 1 // inadmissible for triggers
-		case 4:
-			e.Gas = "9223372036854775808" // not an int64: inadmissible for the sequencer
+		case 4, 9, 10:
+			// not an int64: inadmissible for the sequencer (2^63, 2^64-1, and values whose low 64 bits look harmless)
+			e.Gas = vh.Pick(r, "9223372036854775808", "18446744073709551615", "18446744073709572616", "1606938044258990275541962092341162602522202993782792835301376")
 		case 5:
 			e.Gas = "9223372036854775807"
 		case 6:
@@ -1038,6 +1068,22 @@ func emptyHashScenarios() []*Scenario {
 
 func forcedScenarios() []*Scenario {
 	var out []*Scenario
+	// admission boundaries of the sequencer: gas limits 2^63-1 (admissible), 2^63, 2^64-1, 2^64+21000, 2^200
+	{
+		sc := &Scenario{Kind: "sync", Syncer: "sequencer", Start: 0, Note: "gas limits around 2^63 and 2^64"}
+		gas := []string{"9223372036854775807", "18446744073709572616", "1606938044258990275541962092341162602522202993782792835301376", "21000"}
+		for i, g := range gas {
+			sc.Blocks = append(sc.Blocks, syncrig.BlockSpec{Parent: i, Items: []syncrig.Item{{Tx: 0, Ev: &syncrig.Ev{Eon: 1, P: uint8(1 + i), S: 1, Idx: uint64(i), Gas: g}}}})
+		}
+		sc.Steps = []Step{{Head: 2}, {Head: 4}}
+		out = append(out, sc)
+		sc2 := &Scenario{Kind: "sync", Syncer: "sequencer", Start: 0, Note: "gas limits 2^63 and 2^64-1 (negative as int64)"}
+		for i, g := range []string{"9223372036854775808", "21000", "18446744073709551615"} {
+			sc2.Blocks = append(sc2.Blocks, syncrig.BlockSpec{Parent: i, Items: []syncrig.Item{{Tx: 0, Ev: &syncrig.Ev{Eon: 1, P: uint8(1 + i), S: 1, Idx: uint64(i), Gas: g}}}})
+		}
+		sc2.Steps = []Step{{Head: 1}, {Head: 3}}
+		out = append(out, sc2)
+	}
 	for _, s := range []string{"registry", "sequencer", "multi"} {
 		out = append(out, longScenario(s, 0, nil, nil, "three ranges, no fault"))
 		// D8: the transaction of the first range fails; the later ranges commit
